@@ -747,12 +747,12 @@ func init() {
 		PkgDirs: []string{"internal/transfer"},
 		Level:   "model_checking",
 		Explanation: "Bounded model checking of the sender's per-file dispatch state machine: the repository's own sendFileState.nextChunkToSend / markChunkDone / trySendEnd (with Bitmap.Get and chunkSizeForIndex) are executed from go/ssa for every sequence of worker steps take(w)/finish(w) interleaved with the arrival of the resume report and of the verification verdict. " +
-			"File size, bitmap bytes, forceSendFrom, verified chunk, verifyNeeded and the verdict are solver variables; the schedule is a sequence of forked choices over the enabled events (workers symmetric). Ghost counters assert exactly-once dispatch, no dispatch of reported chunks below the verification point, one extra dispatch of the mismatching chunk, a single FileEnd only when nothing is in flight, verification is decided and no re-send is outstanding, nothing after FileEnd, and progress to FileEnd when idle. C17.sender-end: the whole real sender with two data streams (two workers) and one file of two chunks under the canonical schedule plus one (thorough: two) preemptions: at the moment the FileEnd record is written to the control stream every chunk of the file is completely on its data stream.",
+			"File size, bitmap bytes, forceSendFrom, verified chunk, verifyNeeded and the verdict are solver variables; the schedule is a sequence of forked choices over the enabled events (workers symmetric). Ghost counters assert exactly-once dispatch, no dispatch of reported chunks below the verification point, one extra dispatch of the mismatching chunk, a single FileEnd only when nothing is in flight, verification is decided and no re-send is outstanding, nothing after FileEnd, and progress to FileEnd when idle. C17.sender-end: the whole real sender with two data streams (two workers) and one file of two chunks under the canonical schedule plus one preemption: at the moment the FileEnd record is written to the control stream every chunk of the file is completely on its data stream.",
 		Rule:        "states = paths explored (one per schedule x data class), transitions = solver queries; assertion sites: vAssert lines of vC17*",
 		Assumptions: []string{"methods are mutex-protected, hence atomic steps (checked by the lock model: a Lock of a held mutex ends the path)", "glue mirrors nextTask / worker loop / applyResumeInfo of SendManifestMultiStream (harness header); a reordering of those call sites is outside what this check sees", "bounds per tier below"},
 		Bounds: func(tier string) string {
 			if tier == "thorough" {
-				return "as quick, plus chunks <= 4 with 3 workers and 10 steps without resume; plan closure unit <= 5 chunks; whole sender: two workers with two preemptions, three files with one preemption; chunk size 4, last chunk 1..4 bytes"
+				return "as quick, plus chunks <= 4 with 3 workers and 10 steps without resume and the plan closure unit up to 5 chunks; chunk size 4, last chunk 1..4 bytes"
 			}
 			return "chunks <= 3, 2 workers, 8 steps without resume; chunks <= 2, 2 workers, 8 steps with resume report/verdict arrival at every step"
 		},
@@ -782,17 +782,11 @@ func init() {
 			se.TimerBudget = 1
 			se.CanonicalBlock, se.Preempt = true, 1
 			se.BlockedOK = true // an idle worker polls every 200 ms; with one timer event per path the poll cannot be modelled faithfully. Hangs of the sender are C02's subject
-			if tier == "thorough" {
-				se.Preempt = 2
-			}
 			se.Stubs = map[string]interceptFn{repoModule + "/internal/transfer.readAtWithPool": stubReadAtDirect}
 			js = append(js, se)
-			fl := hj("C17.files", "H_C17_files", "real sender, three files on two slots: each begun once, ended once, every chunk on a stream once (canonical schedule, one timer event; thorough: plus one preemption)")
+			fl := hj("C17.files", "H_C17_files", "real sender, three files on two slots: each begun once, ended once, every chunk on a stream once (canonical schedule, one timer event)")
 			fl.Threads, fl.Workers, fl.MaxPaths = true, 16, 5000000
 			fl.TimerBudget, fl.CanonicalBlock, fl.Preempt, fl.BlockedOK = 1, true, 0, true
-			if tier == "thorough" {
-				fl.Preempt = 1
-			}
 			fl.Stubs = map[string]interceptFn{repoModule + "/internal/transfer.readAtWithPool": stubReadAtDirect}
 			js = append(js, fl)
 			return js
